@@ -8,7 +8,7 @@ from vlib import scenario, record, agp_model
 LEVEL = "exploration"
 RULE = ("(a) full grid itersLimit in 1..5 x eps in {3,1.5,1,0.9,0.5,0.1,0.01} x N in 1..5 x 4 objectives; (b) eps set exactly "
         "equal to attainable Hoelder lengths pow(2^-j,1/N) (and one ulp either side); (c) seeded random scenarios over all objective "
-        "families with refinement on and off and pre-batched iterations; (d) multi-step use: Solve, the user raises (or lowers) parameters.itersLimit, Solve again. The stop point, the evaluation count and "
+        "families with refinement on and off and pre-batched iterations; (d) multi-step use: Solve, the user raises (or lowers) parameters.itersLimit, Solve again; local refinement (DoLocalRefinement or refineSolution) before a Solve that still has budget. The stop point, the evaluation count and "
         "the reported accuracy are recomputed from the authenticated trial log. Non-trivial: the run made >= 2 trials; "
         "distinct = distinct (N, eps, itersLimit, family, trial count, stop reason).")
 ASSUMPTIONS = ["Hoelder length of an interval is pow(x_r-x_l, 1/N) evaluated by libm pow on the same doubles the solver used",
@@ -66,6 +66,31 @@ def cases(tier, seed):
         if rng.random() < 0.2:
             pat += [["set", "itersLimit", 1], ["solve"]]          # a lowered limit: nothing more may be evaluated
         scn["pattern"] = pat
+        out.append(scn)
+    nr = 80 if tier == "quick" else 800
+    for i in range(nr):
+        # a local refinement happens on the same Solver BEFORE a Solve that still has global budget left:
+        # local trials must not be charged to itersLimit
+        rng = scenario.rng_for(seed, "C03R", i)
+        scn = scenario.gen_scenario(rng, max_iters=60, refine=False,
+                                    fams=["cones", "sines", "wells", "linear", "outside", "needle", "rcos"])
+        scn["eps"] = max(scenario.eps_floor(scn["N"], scn["m"]) * 1.01, min(scn["eps"], 10 ** rng.uniform(-4, -2)))
+        k1 = int(rng.integers(3, 40))
+        more = int(rng.integers(5, 250))
+        u = rng.random()
+        if u < 0.4:
+            scn["refine"] = True
+            scn["iters"] = k1
+            scn["pattern"] = [["solve"], ["set", "itersLimit", k1 + more], ["solve"]]
+        elif u < 0.75:
+            scn["iters"] = k1 + more
+            scn["pattern"] = [["iter", k1], ["local", int(rng.integers(2, 60))], ["solve"]]
+        else:
+            scn["iters"] = k1
+            scn["pattern"] = [["solve"], ["local", int(rng.integers(2, 60))], ["set", "itersLimit", k1 + more], ["solve"]]
+            if rng.random() < 0.5:
+                scn["refine"] = True
+        scn["grp"] = "refined-before-solve"
         out.append(scn)
     n = 480 if tier == "quick" else 15000
     for i in range(n):
@@ -180,10 +205,15 @@ def run_case(scn):
         obs["single_trial_runs"] = 1
     if any(L == eps for L in sub):
         obs["equality_hit"] = 1          # an interval of length exactly eps was subdivided and the run went on
+    nl = len([e for e in t.log if e["ph"] == "l"])
     if scn.get("refine"):
-        nl = len([e for e in t.log if e["ph"] == "l"])
         obs["refine_runs"] = 1
         obs["local_evals"] = nl
+    if scn.get("grp") == "refined-before-solve" and nl > 0:
+        # was there a Solve that started after local trials had been made and still evaluated something?
+        first_local = min(e["i"] for e in t.log if e["ph"] == "l")
+        if any(e["ph"] == "g" and e["i"] > first_local for e in t.log):
+            obs["global_trials_after_local_trials"] = 1
     obs["trials"] = T
     obs["grp_" + scn.get("grp", "x")] = 1
     key = "%d|%r|%d|%s|%d|%s|%d" % (N, eps, scn["iters"], scn["obj"]["fam"], T, reason, len(pattern))
@@ -192,7 +222,7 @@ def run_case(scn):
 
 
 def finalize(obs, tier, stats):
-    miss = [k for k in ("stop_budget", "stop_accuracy", "equality_hit", "single_trial_runs", "refine_runs", "accuracy_checked", "solves_continuing_earlier_work", "grp_raise-limit") if not obs.get(k)]
+    miss = [k for k in ("stop_budget", "stop_accuracy", "equality_hit", "single_trial_runs", "refine_runs", "accuracy_checked", "solves_continuing_earlier_work", "grp_raise-limit", "global_trials_after_local_trials") if not obs.get(k)]
     if miss:
         return "never observed: %s" % miss, {}
     if obs.get("equality_hit", 0) < 10:
